@@ -164,7 +164,7 @@ def property_from_data(  # noqa: PLR0911, PLR0912
 
     sub_data: list[oai.Schema | oai.Reference] = data.allOf + data.anyOf + data.oneOf
     # A union of a single reference should just be passed through to that reference (don't create copy class)
-    if len(sub_data) == 1 and isinstance(sub_data[0], oai.Reference):
+    if len(sub_data) == 1 and isinstance(sub_data[0], oai.Reference) and not data.properties:
         prop, schemas = _property_from_ref(
             name=name,
             required=required,
